@@ -198,6 +198,13 @@ def rule_instances(rng: random.Random, widths=(1, 2, 3, 4, 8, 16, 32, 64), per=6
                     for cmp in CMP:
                         out.append(T(cmp, T("ZeroExt", x, ints=(n,)), BVV(kv, W + n)))
                         out.append(T(cmp, T("SignExt", x, ints=(n,)), BVV(kv, W + n)))
+            # shifts of zero-extended / zero-concatenated values by amounts around the inner width
+            for n in (1, W, 3 * W):
+                for sh in ("LShR", "__rshift__", "__lshift__"):
+                    for amt in (W - 1, W, W + 1, W + n - 1, W + n):
+                        if amt >= 0:
+                            out.append(T(sh, T("ZeroExt", x, ints=(n,)), BVV(amt, W + n)))
+                            out.append(T(sh, T("Concat", BVV(0, n), x), BVV(amt, W + n)))
             # Extract / Concat interplay
             if W >= 2:
                 hi = rng.randrange(W)
